@@ -97,7 +97,15 @@ func (s *rangeState) rowsFor(mac []byte) string {
 		out = append(out, fmt.Sprintf("%s:%d", hx(net.ParseIP(ip).To4()), exp))
 	}
 	sort.Strings(out)
-	return fmt.Sprintf("rows %d %s", len(out), strings.Join(out, " "))
+	// the hardware address as sqlite hands it back (column affinity may have rewritten it)
+	key := "key ?"
+	var stored string
+	if err := s.db.QueryRow("select mac from leases4 where mac = ? limit 1", net.HardwareAddr(mac).String()).Scan(&stored); err == nil {
+		key = "key " + hx([]byte(stored))
+	} else if len(out) == 0 {
+		key = "key none"
+	}
+	return fmt.Sprintf("rows %d %s %s", len(out), strings.Join(out, " "), key)
 }
 
 func askOne(h handler.Handler4, typ string, mac, host []byte) string {
